@@ -122,12 +122,68 @@ __xml_namespace__ = "https://dummy.com"
 '''
 
 
+LONG_NAMES_MODEL = mmgen.IMPORTS + '''
+@verification
+def matches_lower_case_letters_only(text: str) -> bool:
+    \"\"\"Check the text.\"\"\"
+    pattern = f"^[a-z]*$"
+    return match(pattern, text) is not None
+
+
+@invariant(lambda self: len(self) <= 5, "At most five characters.")
+@invariant(lambda self: matches_lower_case_letters_only(self), "Lower-case letters only.")
+class Very_long_name_of_a_constrained_primitive_for_short_texts(str, DBC):
+    pass
+
+
+@invariant(lambda self: self >= 0, "Must not be negative.")
+class Another_very_long_name_of_a_constrained_primitive_for_counts(int, DBC):
+    pass
+
+
+@invariant(lambda self: len(self.the_items_of_the_very_long_constrained_primitive) >= 1, "At least one item.")
+class Something(DBC):
+    the_items_of_the_very_long_constrained_primitive: List[
+        Very_long_name_of_a_constrained_primitive_for_short_texts
+    ]
+    counts: List[Another_very_long_name_of_a_constrained_primitive_for_counts]
+    single: Very_long_name_of_a_constrained_primitive_for_short_texts
+    maybe_counts: Optional[List[Another_very_long_name_of_a_constrained_primitive_for_counts]]
+
+    def __init__(
+        self,
+        the_items_of_the_very_long_constrained_primitive: List[
+            Very_long_name_of_a_constrained_primitive_for_short_texts
+        ],
+        counts: List[Another_very_long_name_of_a_constrained_primitive_for_counts],
+        single: Very_long_name_of_a_constrained_primitive_for_short_texts,
+        maybe_counts: Optional[
+            List[Another_very_long_name_of_a_constrained_primitive_for_counts]
+        ] = None,
+    ) -> None:
+        self.the_items_of_the_very_long_constrained_primitive = (
+            the_items_of_the_very_long_constrained_primitive
+        )
+        self.counts = counts
+        self.single = single
+        self.maybe_counts = maybe_counts
+
+
+__version__ = "dummy"
+__xml_namespace__ = "https://dummy.com"
+'''
+
+
 def targeted_models() -> List[Tuple[str, str]]:
     # the grouping models are shared with C09 (there the other SDKs are compared with the
     # Python SDK; here the Python SDK is compared with the reference semantics)
     from vf.checks import c09
 
-    return [("targeted/comprehension-filter", FILTER_MODEL)] + list(c09.TARGETED)
+    return [
+        ("targeted/comprehension-filter", FILTER_MODEL),
+        # the generators break long lines: other code paths than for short names
+        ("targeted/very-long-names", LONG_NAMES_MODEL),
+    ] + list(c09.TARGETED)
 
 
 def check_model(chk: harness.Check, name: str, text: str, rng, n_instances: int) -> None:
